@@ -605,7 +605,7 @@ impl<'a, 'b> RuleGen<'a, 'b> {
                         let mut body = self.block(&mut cctx, depth + 1, budget.saturating_sub(2).max(2));
                         // pattern variables that were never used again
                         self.fixup(&cctx, &mut body, first_case_var, first_case_var + n_pat_vars);
-                        cases.push(MatchCase { ctor: c, args, body });
+                        cases.push(MatchCase { ctor: c, args, body, raw_pattern: None });
                     }
                     out.push(Stmt::Match(disc, cases));
                 }
